@@ -513,8 +513,49 @@ class StandardEngineBattery:
                     pr = [f"exception {type(e).__name__}: {e}"]
                 if pr and not viol:
                     viol.append({"obligation": f"{self.name}::textbook-price-error-and-control-variates", "bounded": self.name, "witness": {"config": {**kw, "seed": sd}, "problems": pr[:3]}})
+        # worker-pool branch: exactly the configured number of paths is simulated and stored, also with fewer paths than workers
+        for n_paths, workers in ((3, 4), (10, 2)):
+            ev += 1
+            try:
+                pr = self.pool_run(n_paths, workers)
+            except Exception as e:
+                pr = [f"exception {type(e).__name__}: {e}"]
+            if pr:
+                viol.append({"obligation": f"{self.name}::worker-pool-simulates-exactly-the-configured-paths", "bounded": self.name,
+                             "witness": {"mc_paths": n_paths, "worker_processes": workers, "problems": pr[:3]}})
+                break
         return {"name": self.name, "evaluations": ev, "distinct_nontrivial": ev, "violations": viol, "samples": [],
-                "bound": f"{len(self.CONFIGS)} scripted configurations x seeds; at most 40 paths per price() call, at most 3 calls per engine"}
+                "bound": f"{len(self.CONFIGS)} scripted configurations x seeds; at most 40 paths per price() call, at most 3 calls per engine; 2 worker-pool runs"}
+
+    @staticmethod
+    def pool_run(n_paths, workers):
+        import warnings
+        with warnings.catch_warnings():
+            warnings.simplefilter("ignore")
+            from rpylib.model.utils import create_exponential_of_levy_model
+            from rpylib.model.levymodel.levymodel import ModelType
+            from rpylib.process.levyprocess import LevyProcess
+            from rpylib.montecarlo.configuration import ConfigurationStandard
+            from rpylib.montecarlo.standard.engine import Engine
+            from rpylib.product.product import Product
+            from rpylib.product.underlying import Spot
+            from rpylib.product.payoff import PayoffOnTheFly
+            m = create_exponential_of_levy_model(ModelType.HEM)(spot=100.0, r=0.02, d=0.0)
+            prod = Product(payoff_underlying=Spot(), payoff=PayoffOnTheFly(lambda u: u), maturity=0.5)
+            # the statistics arrays are allocated uninitialised: poison them so that a row nobody wrote is recognisable
+            from unittest import mock
+            real_empty = np.empty
+            with mock.patch("numpy.empty", side_effect=lambda shape, *a, **k: (lambda arr: (arr.fill(np.nan) if arr.dtype.kind == "f" else None) or arr)(real_empty(shape, *a, **k))):
+                st = Engine(ConfigurationStandard(mc_paths=n_paths, seed=None, nb_of_processes=workers), LevyProcess(m)).price(prod)
+        rows = np.ravel(np.asarray(st._payoff_statistics.stats, dtype=float))
+        out = []
+        if rows.size != n_paths:
+            out.append(f"{rows.size} rows for {n_paths} configured paths")
+        if not np.all(np.isfinite(rows)) or np.any(rows <= 0) or np.any(rows > 1e4):
+            out.append(f"rows that were never simulated (terminal spot must be a positive number): {rows.tolist()[:6]}")
+        if not np.isclose(float(np.ravel(st.price(no_control_variates=True))[0]), rows.mean()):
+            out.append("price is not the mean of the stored rows")
+        return out
 
     def replay(self, rec):
         from contracts.std_harness import run_schedule
